@@ -123,8 +123,38 @@ func builtinIntrinsics() map[string]Intrinsic {
 		}
 		return outs
 	}
+	// strings.Replacer: NewReplacer with concrete old/new pairs is kept as an opaque object;
+	// Replace scans left to right, at each position taking the first pair (in argument order)
+	// whose old string matches - the documented semantics - and forks on the match pattern.
 	m["strings.NewReplacer"] = func(x *Exec, s *State, a []Value, _ *ssa.Call) []Outcome {
-		return one(Ptr{}) // never used through the engine (html.EscapeString is an intrinsic)
+		el := s.sliceElems(a[0].(Slice))
+		if len(el)%2 != 0 {
+			return panicOutcome("strings.NewReplacer: odd argument count")
+		}
+		pairs := make([]string, len(el))
+		for i, e := range el {
+			cs, ok := e.(Str).Concrete()
+			if !ok {
+				unsupported("strings.NewReplacer with a symbolic argument")
+			}
+			if i%2 == 0 && cs == "" {
+				unsupported("strings.NewReplacer with an empty old string")
+			}
+			pairs[i] = cs
+		}
+		ext := x.W.newExt("strings.Replacer", pairs)
+		return []Outcome{{Cond: smt.True, Val: lazyVal{func(cs *State) Value { return Ptr{Obj: cs.alloc(ext)} }}}}
+	}
+	m["(*strings.Replacer).Replace"] = func(x *Exec, s *State, a []Value, _ *ssa.Call) []Outcome {
+		p, ok := a[0].(Ptr)
+		if !ok || p.Obj == 0 {
+			return panicOutcome("nil pointer dereference ((*strings.Replacer).Replace)")
+		}
+		ext, ok := s.load(p).(*Ext)
+		if !ok || ext.Kind != "strings.Replacer" {
+			unsupported("strings.Replacer with unexpected representation")
+		}
+		return x.replacerReplace(s, ext.V.([]string), a[1].(Str))
 	}
 	// ---- bytes ----
 	m["bytes.IndexByte"] = func(x *Exec, s *State, a []Value, _ *ssa.Call) []Outcome {
@@ -233,6 +263,9 @@ func builtinIntrinsics() map[string]Intrinsic {
 	noop := func(x *Exec, s *State, a []Value, _ *ssa.Call) []Outcome { return one(nil) }
 	m["(*sync.Once).Do"] = inOnceDo
 	m["encoding/json.Marshal"] = inJSONMarshal
+	m["(*encoding/json.Encoder).Encode"] = inJSONEncode
+	m["(*sync.Pool).Get"] = inPoolGet
+	m["(*sync.Pool).Put"] = func(x *Exec, s *State, a []Value, _ *ssa.Call) []Outcome { return one(nil) }
 	m[RepoModule+"/internal/safehtmlutil.Indirect"] = inIndirect
 	m[RepoModule+"/internal/safehtmlutil.indirectToStringerOrError"] = inIndirectToStringer
 	m[RepoModule+"/template.indirectToStringerOrError"] = inIndirectToStringer
@@ -1582,6 +1615,55 @@ func (x *Exec) fieldsSym(s *State, str Str) []Outcome {
 		rec(i+1, c.And(g, c.Not(sp[i])), append(append([]bool(nil), mask...), false))
 	}
 	rec(0, ascii, nil)
+	return outs
+}
+
+func (x *Exec) replacerReplace(s *State, pairs []string, in Str) []Outcome {
+	c := x.Ctx
+	n := len(in.B)
+	var outs []Outcome
+	var rec func(i int, out Str, g *smt.Term)
+	rec = func(i int, out Str, g *smt.Term) {
+		if g == smt.False {
+			return
+		}
+		if i == n {
+			outs = append(outs, Outcome{Cond: g, Val: out})
+			return
+		}
+		if !g.IsConst() {
+			if feas, _ := x.feasible(s, g); !feas {
+				return
+			}
+		}
+		none := smt.True
+		for k := 0; k+1 < len(pairs); k += 2 {
+			old, nw := pairs[k], pairs[k+1]
+			if i+len(old) > n {
+				continue
+			}
+			m := smt.True
+			for j := 0; j < len(old); j++ {
+				m = c.And(m, c.Eq(in.B[i+j], smt.Byte(old[j])))
+			}
+			hit := c.And(none, m)
+			if hit != smt.False {
+				rec(i+len(old), concatStr(out, StrOf(nw)), c.And(g, hit))
+			}
+			none = c.And(none, c.Not(m))
+			if none == smt.False {
+				break
+			}
+		}
+		if none != smt.False {
+			o2 := Str{B: append(append([]*smt.Term(nil), out.B...), in.B[i])}
+			rec(i+1, o2, c.And(g, none))
+		}
+	}
+	rec(0, Str{}, smt.True)
+	if len(outs) > 4096 {
+		unsupported("strings.Replacer.Replace: %d outcomes", len(outs))
+	}
 	return outs
 }
 
